@@ -9,7 +9,7 @@
    lookup in that state.  The only hypothesis, `shadow_wf w`, says that the parent loader binds a type under
    the key of its name (checked on every case of the correspondence run). *)
 From Coq Require Import ZArith NArith Bool List String Ascii Lia.
-From PcoreV Require Import Model.Base Model.FileLoader Model.FileLoaderText Proofs.FileLoaderProofs Proofs.FileLoaderTextProofs Proofs.FileLoaderIff.
+From PcoreV Require Import Model.Base Model.FileLoader Model.FileLoaderText Proofs.FileLoaderProofs Proofs.FileLoaderTextProofs Proofs.FileLoaderIff Proofs.FileLoaderMember.
 Import ListNotations.
 Local Open Scope nat_scope.
 
@@ -177,6 +177,49 @@ Theorem C15_found_iff_file_equivalence :
     ((exists v, o = OFound v) <-> (exists i, consulted w (norm_name name) i /\ defined_file w i (norm_name name))).
 Proof. exact found_iff_file_equiv. Qed.
 Print Assumptions C15_found_iff_file_equivalence.
+
+
+(* ---- found <= file for a TypeSet MEMBER name ----------------------------------------------------------------- *)
+(* Proofs/FileLoaderMember.v.  `ts_member w i kd k`: loader i holds, at the path its index derives from kd, a TypeSet
+   file that declares kd with a member whose qualified name is k.  `sole_claimant w i kd k`: nothing else stands for
+   k - no loader has a file at the path derived from k, no TypeSet file of ANOTHER loader declares a member named k,
+   the parent does not bind k - and no TypeSet file of loader i declares a member named kd.  Then, in every topology
+   (i consulted for k and kd, answering for both: `routed`), in the state reached by any error-free operation
+   sequence (the member looked up first - which instantiates the TypeSet while the member lookup is in progress -,
+   the TypeSet looked up first, members reached through references from other files, through any contexts, nested
+   lookups of the member that cache a miss under the placeholder of the TypeSet, any recursion depth), the member is
+   never answered "not found"; found, it carries the name.
+   Invariant over in-progress instantiations (FileLoaderMember.P / Q2 / B2): (i, kd) holds a value => (i, k) holds
+   a value, in EVERY intermediate state; a cached miss for (i, k) that a computation without error leaves behind
+   was there before or stands under a placeholder of (i, kd); between the operations of an error-free run neither
+   (i, kd) nor (i, k) holds a placeholder. *)
+Theorem C15_typeset_member_never_missed :
+  forall w fuel ops ctx name s' o rd i kd,
+    members_wf w -> clean_run w fuel ops -> lookup_after w fuel ops ctx name = (s', (o, rd)) ->
+    ts_member w i kd (norm_name name) -> routed w i kd -> routed w i (norm_name name) ->
+    consulted w (norm_name name) i -> consulted w kd i -> sole_claimant w i kd (norm_name name) ->
+    o <> ONotFound.
+Proof. exact member_not_missed. Qed.
+Print Assumptions C15_typeset_member_never_missed.
+
+Theorem C15_typeset_member_found :
+  forall w fuel ops ctx name s' o rd i kd,
+    shadow_wf w -> members_wf w -> clean_run w fuel ops ->
+    lookup_after w fuel ops ctx name = (s', (o, rd)) -> clean_out (o, rd) = true ->
+    ts_member w i kd (norm_name name) -> routed w i kd -> routed w i (norm_name name) ->
+    consulted w (norm_name name) i -> consulted w kd i -> sole_claimant w i kd (norm_name name) ->
+    exists v, o = OFound v /\ tv_name v = norm_name name.
+Proof. exact member_found. Qed.
+Print Assumptions C15_typeset_member_found.
+
+(* the decidable reading (all hypotheses on the world and the name as one boolean; evaluated by the correspondence run
+   on the observed outcomes: mem_ok_from / c15_mem_ok) *)
+Theorem C15_typeset_member_never_missed_dec :
+  forall w fuel ops ctx name s' o rd i,
+    members_wf w -> clean_run w fuel ops -> lookup_after w fuel ops ctx name = (s', (o, rd)) ->
+    member_claim_b w i (norm_name name) = true -> o <> ONotFound.
+Proof. exact member_claim_not_missed. Qed.
+Print Assumptions C15_typeset_member_never_missed_dec.
 
 (* ---- a chain of file-based loaders: a binding of a loader up the chain is found through the loaders below ------ *)
 (* Loaders 0 .. length-1, the parent of loader i is loader i+1 (TopChain; the top loader, through which the lookup
@@ -545,3 +588,26 @@ Example C15_example_iff_check :
   iff_ok_from ex_err [OpLoad (-1) (s "Shapes"); OpLoad (-1) (s "Shapes")] (run ex_err 8 [OpLoad (-1) (s "Shapes"); OpLoad (-1) (s "Shapes")]) = true /\
   (forall w fuel ops, iff_ok_from w ops (run w fuel ops) = true).
 Proof. split; [vm_compute; reflexivity|]. split; [vm_compute; reflexivity|]. split; [vm_compute; reflexivity|exact iff_ok_run]. Qed.
+
+(* non-vacuity of the TypeSet-member theorems: the chain world; histories that look the member up first (the TypeSet is
+   instantiated while the member lookup is in progress, through the module loader that caches a miss meanwhile),
+   through a file that refers to the member, or after the TypeSet; every later member lookup is found; the check on
+   outcomes rejects a "not found" for such a member *)
+Example C15_example_member :
+  members_wf ex_chain /\
+  member_claim_b ex_chain 1 (norm_name (s "Shapes::Square")) = true /\
+  member_claim_b ex_chain 0 (norm_name (s "Moda::Car")) = true /\
+  clean_run ex_chain 8 [OpLoad 0 (s "Moda::Thing"); OpLoad (-1) (s "Shapes::Circle")] /\
+  (exists s' rd, lookup_after ex_chain 8 [OpLoad 0 (s "Moda::Thing"); OpLoad (-1) (s "Shapes::Circle")] 1 (s "shapes::SQUARE")
+                 = (s', (OFound {| tv_name := s "shapes::square"; tv_marker := 32; tv_ts := false |}, rd))) /\
+  clean_run ex_chain 8 [OpLoad (-1) (s "Shapes"); OpLoad 0 (s "Moda")] /\
+  mem_ok_from ex_chain [OpLoad (-1) (s "Shapes"); OpLoad 0 (s "Shapes::Square")]
+              [(OFound {| tv_name := s "shapes"; tv_marker := 0; tv_ts := true |}, [(1, s "types/shapes.pp")]); (ONotFound, [])] = false /\
+  mem_ok_from ex_chain [OpLoad 0 (s "Moda::Thing"); OpLoad (-1) (s "Shapes::Circle"); OpLoad 1 (s "Shapes::Oval")]
+              (run ex_chain 8 [OpLoad 0 (s "Moda::Thing"); OpLoad (-1) (s "Shapes::Circle"); OpLoad 1 (s "Shapes::Oval")]) = true.
+Proof.
+  split; [apply members_wf_b_true; vm_compute; reflexivity|].
+  split; [vm_compute; reflexivity|]. split; [vm_compute; reflexivity|]. split; [vm_compute; reflexivity|].
+  split; [eexists; eexists; vm_compute; reflexivity|]. split; [vm_compute; reflexivity|].
+  split; vm_compute; reflexivity.
+Qed.
